@@ -330,6 +330,13 @@ def gen_simple_case(rng, tier):
     if gs["vars"] and rng.random() < (0.8 if "metric_weighted" in op.get("kw", {}) else 0.5):
         alld = sorted({d for v in gs["vars"].values() for d in v["dims"]})
         spec["lazy_ds"] = gen_chunks(rng, alld, sizes)
+    if opname in STENCIL_OPS + ["cumsum"] and rng.random() < 0.18:
+        # chained operations: a second operation applied to the (lazy) result of the first one; both results are
+        # computed in one graph, so the intermediate has two consumers
+        then = gen_then(rng, gs, op, posof, inp)
+        if then:
+            spec["then"] = then
+            return spec
     if opname in STENCIL_OPS + ["cumsum"] and rng.random() < 0.3:
         # F5 shared compute: a second lazy result computed in the same graph
         variant = rng.choice(["other-op", "other-data", "other-kwargs"])
@@ -346,6 +353,66 @@ def gen_simple_case(rng, tier):
             kw2["fill_value"] = float(rng.randint(4, 9))
             spec["pair"] = {"name": opname, "axis": op["axis"], "kw": kw2}
     return spec
+
+
+def resolve_to(gs, a, fp, to):
+    """position the result of a stencil op / cumsum has along axis a (explicit `to`, else the Grid's default shift)"""
+    tp = to.get(a) if isinstance(to, dict) else to
+    if tp is None:
+        from xgcm.axis import FALLBACK_SHIFTS
+
+        tp = ((gs.get("grid") or {}).get("default_shifts") or {}).get(a, {}).get(fp)
+        if tp is None:
+            tp = next((p for p in FALLBACK_SHIFTS[fp] if p in gs["axes"][a]["pos"]), None)
+    return tp
+
+
+def positions_after(gs, op, posof):
+    axes = [op["axis"]] if isinstance(op["axis"], str) else list(op["axis"])
+    out = dict(posof)
+    for a in axes:
+        out[a] = resolve_to(gs, a, posof[a], op.get("kw", {}).get("to"))
+    return out
+
+
+def gen_then(rng, gs, op, posof, inp):
+    pos1 = positions_after(gs, op, posof)
+    if any(p is None for p in pos1.values()):
+        return None
+    cand = list(pos1)
+    k = rng.choice([1, 1, 2])
+    axes2 = rng.sample(cand, min(k, len(cand)))
+    name2 = rng.choice(STENCIL_OPS + ["cumsum"])
+    kw2 = call_kwargs(rng, gs, axes2)
+    kw2["to"] = {a: rng.choice(valid_to(gs["axes"][a], pos1[a])) for a in axes2}
+    return {"name": name2, "axis": axes2 if (len(axes2) > 1 or rng.random() < 0.5) else axes2[0], "kw": kw2,
+            "posof": pos1}
+
+
+def then_virtual_spec(spec, inter=None):
+    """the second operation of a chain seen as an operation on an input located where the first result is.  Its
+    chunking is read off the lazy intermediate itself: `cumsum` pads by concatenation and returns more blocks along
+    the axis than it was given (even for a single-chunk input), so "chunked along the operated axis" is a fact about
+    the intermediate, not about the original input."""
+    gs = spec["gspec"]
+    dap = worlds.dim_axis_pos(gs)
+    pos1 = spec["then"]["posof"]
+    dims, chunks = [], {}
+    for d in spec["input"]["dims"]:
+        if d in dap:
+            a = dap[d][0]
+            nd = gs["axes"][a]["pos"][pos1[a]]
+        else:
+            nd = d
+        dims.append(nd)
+        if d in (spec.get("chunks") or {}):
+            chunks[nd] = spec["chunks"][d]
+    if inter is not None and getattr(inter, "variable", None) is not None and inter.variable.chunksizes:
+        # (the variable's chunks: a result may carry lazy coordinates chunked differently from its data)
+        chunks = {str(d): list(c) for d, c in inter.variable.chunksizes.items()}
+    v = {"gspec": gs, "kind": spec["kind"], "op": spec["then"], "input": dict(spec["input"], dims=dims), "chunks": chunks,
+         "lazy_ds": spec.get("lazy_ds")}
+    return v
 
 
 def gen_ufunc_case(rng, gs, spec, tier):
@@ -936,6 +1003,8 @@ def _run_case(spec, cnt=None):
         eager_exc = None
         try:
             eager = [call_op(grid, op, da, da2, spec.get("vector"), eager=True)]
+            if spec.get("then"):
+                eager.append(call_op(grid, spec["then"], eager[0], eager=True))
             if spec.get("pair"):
                 eager.append(call_op(grid, spec["pair"], da_p, da2, spec.get("vector"), eager=True))
             eager = compute_all(eager)  # (transform-style ops may return dask even eagerly)
@@ -964,6 +1033,14 @@ def _run_case(spec, cnt=None):
         with BuildMonitor() as bm:
             try:
                 lazy = [call_op(lgrid, op, lda, lda2, spec.get("vector"))]
+                if spec.get("then"):
+                    # from here on a refusal is judged by the situation of the second operation
+                    exempt = exempt_condition(then_virtual_spec(spec, lazy[0]))
+                    op = spec["then"]
+                    feat = feat + "/chained"
+                    lazy.append(call_op(lgrid, spec["then"], lazy[0]))
+                    op = spec["op"]
+                    exempt = exempt or exempt_condition(spec)
                 if spec.get("pair"):
                     lazy.append(call_op(lgrid, spec["pair"], lda_p, lda2, spec.get("vector")))
             except Exception as e:  # noqa
@@ -1005,6 +1082,8 @@ def _run_case(spec, cnt=None):
                      "schedule": None}, info)
         if spec.get("pair"):
             cnt.c["shared_computes"] += 1
+        if spec.get("then"):
+            cnt.c["chained_cases"] = cnt.c.get("chained_cases", 0) + 1
         # ---- compute under each schedule
         had_choice = False
         scheds = list(spec["schedules"])
@@ -1054,7 +1133,7 @@ def _run_case(spec, cnt=None):
                 d = first_diff(esn, gsn)
                 if d:
                     fk = _fault_class(sc)
-                    which = op["name"] if ri == 0 else spec["pair"]["name"] + "(paired)"
+                    which = op["name"] if ri == 0 else (spec["then"]["name"] + "(chained)" if spec.get("then") else spec["pair"]["name"] + "(paired)")
                     return ({"fingerprint": f"C06/V5-differs/{d}/{which}/{feat}/{fk}",
                              "detail": f"lazy result of {which} computed under schedule [{schedtxt}] differs from the in-memory result in {d}: "
                                        f"eager {_short(esn, d)} vs lazy {_short(gsn, d)}",
@@ -1195,6 +1274,10 @@ def minimise(spec, fingerprint, sched_index):
             t = copy.deepcopy(s)
             t.pop("pair")
             yield t
+        if s.get("then"):
+            t = copy.deepcopy(s)
+            t.pop("then")
+            yield t
         if s.get("lazy_ds"):
             t = copy.deepcopy(s)
             t["lazy_ds"] = None
@@ -1266,7 +1349,8 @@ class Engine:
                              sorted((spec["op"].get("kw") or {})), spec["input"]["dims"],
                              spec.get("chunks"), spec.get("chunks2"), bool(spec.get("lazy_ds")),
                              {a: sorted(ax["pos"]) for a, ax in spec["gspec"]["axes"].items()},
-                             (spec["op"].get("kw") or {}).get("to")], 12)
+                             (spec["op"].get("kw") or {}).get("to"),
+                             [spec["then"]["name"], spec["then"]["axis"], spec["then"]["kw"].get("to")] if spec.get("then") else None], 12)
         rec = {"d": core.digest([spec, info["outcome"], info["orders"], v["fingerprint"] if v else None]),
                "nt": info["nontrivial"], "shape": shape, "viol": None}
         if v:
@@ -1333,7 +1417,8 @@ RULE = (
     "synchronous scheduler plus simulated schedules (policy in dask-order/random/lifo/fifo/reverse-priority/"
     "boundary-last; faults: duplicate execution, evict+recompute, read-only delivery, copy delivery, concurrent task "
     "pairs interleaved at line granularity; fusion on/off); 30% of the stencil cases compute a second result (other "
-    "op, same op on other data, same op with other kwargs) in the same graph; finally a random window of the lazy "
+    "op, same op on other data, same op with other kwargs) in the same graph, 18% apply a second operation to the lazy "
+    "result of the first (chained; both results computed in one graph); finally a random window of the lazy "
     "result is computed on its own. Every computed result must equal the eager one (values up to 1e-10 relative, NaN "
     "placement, dims order, dtype, coords, name, attrs exactly). Non-trivial = some dimension has > 1 chunk and some "
     "schedule had >= 2 ready tasks at once. Distinct = digest of (grid kind, op, axes, kwarg names, `to`, input dim "
